@@ -136,11 +136,11 @@ theorem OccsBound.append {params : List Bytes} {a b : List Occ} (ha : OccsBound 
   · exact ha o h
   · exact hb o h
 
-theorem OccsBound.keys {params : List Bytes} {env : Env} {ks : List Bytes} (h : KeysBound params env ks) :
-    OccsBound params (occsKeys env ks) := by
+theorem OccsBound.keys {params : List Bytes} {env : Env} {ks : List Bytes} {ls : List LoopOcc}
+    (h : ExprsOk params env ks ls) : OccsBound params (occsKeys env ks) := by
   intro o ho
   obtain ⟨k, hk, rfl⟩ := List.mem_map.mp ho
-  exact h k hk
+  exact h.1 k hk
 
 section
 variable {reg : List Check.Template} {params : List Bytes}
